@@ -5,6 +5,7 @@ import (
 	"fmt"
 	"io"
 	"os"
+	"path"
 	"path/filepath"
 	"strings"
 
@@ -102,4 +103,22 @@ func FsPath(path string, flags FsFlags) (afero.Fs, error) {
 	}
 
 	return afero.NewBasePathFs(afero.NewOsFs(), path), nil
+}
+
+// removeEmptyParents removes the directories left empty by deleting the object
+// at objectPath, stopping at root. S3 has no directories: an emptied one must
+// not be listed as a common prefix or keep its bucket from being deleted.
+func removeEmptyParents(fs afero.Fs, root, objectPath string) {
+	for dir := path.Dir(objectPath); dir != root && (root == "" || strings.HasPrefix(dir, root+"/")); dir = path.Dir(dir) {
+		if dir == "." || dir == "/" {
+			return
+		}
+		entries, err := afero.ReadDir(fs, filepath.FromSlash(dir))
+		if err != nil || len(entries) > 0 {
+			return
+		}
+		if err := fs.Remove(filepath.FromSlash(dir)); err != nil {
+			return
+		}
+	}
 }
